@@ -234,6 +234,25 @@ def rule_r1(chk, p, t):
         om_f, mf, opf = corr_parts(corr_f, f, pf)
         om_g, mg, opg = corr_parts(corr_g, g, pg)
         if om_f != om_g:
+            # a name that is bound more than once (an optional `reduction=None` parameter filled in on demand ...) cannot be
+            # replaced by its definition: the two spellings are then not comparable, which is not a disagreement
+            def rebound(fn, expr):
+                stores = {}
+                for n in ast.walk(fn.node):
+                    if isinstance(n, ast.Name) and isinstance(n.ctx, ast.Store):
+                        stores[n.id] = stores.get(n.id, 0) + 1
+                placeholders = {f"P{i}": prm for i, prm in enumerate(fn.params)}  # alpha() spells parameters P0, P1 ...
+                out = set()
+                for n in ast.walk(expr):
+                    if isinstance(n, ast.Name):
+                        nm = placeholders.get(n.id, n.id)
+                        if stores.get(nm, 0) > 1 or (nm in fn.params and stores.get(nm, 0) >= 1):
+                            out.add(nm)
+                return sorted(out)
+
+            rb = rebound(f, corr_f) + rebound(g, corr_g)
+            if rb:
+                raise Undecided(f"the Earth-rotation vectors of the two directions are spelled through {rb}, bound on more than one path: not comparable", g.node)
             bad.append("the Earth-rotation vector differs between the two directions")
         # PEF position: rot_w applied to the ECEF position
         # forward: operand is the ECEF position just computed (== pf); inverse: operand is x_ecef[:3]
